@@ -2162,6 +2162,48 @@ fn will_is_published_once_unless_the_client_said_disconnect() {
     report(name, "C16", "will registered or not x retained or not x 4 ways the connection ends (link failure, client DISCONNECT, router close after an unsolicited PUBACK / PUBCOMP) x 0..2 matching subscribers x 1..2 PublishWill signals x will QoS 0/1", cases, fail);
 }
 
+/// C16: "a client without a will never causes one" — also when an EARLIER connection of the same client id had registered
+/// a will that never fired (the link told the old connection's waiting task to cancel it when the client reconnected)
+// @native props=C16 tier=quick fn=Router::handle_new_connection (last_wills bookkeeping)+handle_last_will
+#[test]
+fn a_connection_without_a_will_causes_none_whatever_its_predecessor_registered() {
+    let name = "rumqttd::Router::handle_new_connection#will_of_an_earlier_connection_is_not_inherited";
+    let mut cases = 0u64;
+    let mut fail: Option<String> = None;
+    'outer: for clean in [true, false] {
+        for second_has_will in [false, true] {
+            for ending in 0..2u8 {
+                cases += 1;
+                let desc = format!("client c (clean-session {}): connection 1 registers will W1 and loses its link, no PublishWill yet (cancelled by the reconnect); connection 2 {} ends by {}; PublishWill", clean, if second_has_will { "registers will W2," } else { "registers no will," }, ["link failure", "router close after an unsolicited PUBACK"][ending as usize]);
+                let mut r = new_router();
+                let w = connect(&mut r, "watch", true).unwrap();
+                send(&mut r, &w, vec![subscribe(1, &[("will/#", 0)])]);
+                let _ = drain(&mut r, &w);
+                let c1 = connect_with_will(&mut r, "c", clean, Some(("will/c", "W1", 0, false))).unwrap();
+                r.events(c1.id, Event::Disconnect);
+                settle(&mut r);
+                let c2 = connect_with_will(&mut r, "c", clean, if second_has_will { Some(("will/c", "W2", 0, false)) } else { None }).unwrap();
+                if ending == 0 {
+                    r.events(c2.id, Event::Disconnect);
+                    settle(&mut r);
+                } else {
+                    send(&mut r, &c2, vec![puback(77)]);
+                    let _ = drain(&mut r, &c2);
+                }
+                r.events(c2.id, Event::PublishWill(("c".to_owned(), None)));
+                settle(&mut r);
+                let got: Vec<String> = receive_all(&mut r, &w).into_iter().map(|g| g.1).collect();
+                let want: Vec<String> = if second_has_will { vec!["W2".into()] } else { vec![] };
+                if got != want {
+                    fail = Some(format!("input=[{}] detail=[the watcher received wills {:?}, expected {:?}]", desc, got, want));
+                    break 'outer;
+                }
+            }
+        }
+    }
+    report(name, "C16", "clean / persistent x second connection with / without a will x 2 ways it ends", cases, fail);
+}
+
 // ---------------------------------------------------------------------------------------------
 // C14: isolation of a well-behaved pair from a misbehaving third client; stale signals after slot reuse
 // ---------------------------------------------------------------------------------------------
